@@ -39,6 +39,8 @@ import KafkaVerif.Lemmas.Pool
 import KafkaVerif.Lemmas.XerialReader
 import KafkaVerif.Lemmas.XerialIO
 import KafkaVerif.Lemmas.XerialCut
+import KafkaVerif.Lemmas.XerialRead
+import KafkaVerif.Gen.XerialFacts
 import KafkaVerif.Gen.RecordConsts
 import KafkaVerif.Gen.CodecClose
 import KafkaVerif.Gen.CodecPools
@@ -278,6 +280,44 @@ theorem truncated_stream_prefix_any_source (c : Codec) (hg : Good c) (blocks : L
     (ks : List Nat) (hks : ∀ k ∈ ks, 1 ≤ k) (hlen : blocks.flatten.length < ks.length) (n : Nat) (hn : 16 ≤ n) :
     readAllOutIO c ⟨newReader ((frame (blocks.map c.enc)).take n), script⟩ ks <+: blocks.flatten := by
   rw [readAllOutIO_refines]; exact truncated_stream_prefix c hg blocks hsm ks hks hlen n hn
+
+/-! ### Read buffers that are a prefix of a larger array (`len(p) < cap(p)`), and the block encoders per option (round 6) -/
+
+/-- **io.Reader contract of `xerialReader.Read`, for every buffer length and capacity**: whatever the stream, the state of
+the reader and the block codec (as long as its `DecodedLen` is truthful), a data answer of `Read(p)` has at most `len(p)`
+bytes — also when `cap(p)` is larger (`buf[:n]`, io.LimitedReader, scratch arrays).  The comparison that decides the
+decode-into-the-caller's-buffer shortcut is read off `readChunk` by go/ast (Gen/XerialFacts.directDecodeBound = `len`):
+with `cap(dst)` (seeded C16-m7) `directBound_len` and this theorem break. -/
+theorem read_contract (c : Codec) (ht : Truthful c) (fuel : Nat) (r r' : Reader) (len cap : Nat) (d : Bytes)
+    (h : readBuf c fuel r len cap = (r', .data d)) : d.length ≤ len := by
+  unfold readBuf at h
+  rw [directBound_len] at h
+  rcases readB_le c ht fuel r r' len len d h with h1 | h1 <;> exact h1
+
+/-- and the capacity plays no role at all: `Read` into a buffer of length `len` and any capacity is the `read` of the
+other theorems (`reads_reference_streams_any_blocks`, `xerial_roundtrip`, `truncated_stream_prefix`, …: "every partition of
+the output into Read buffer sizes" includes buffers with spare capacity) -/
+theorem readBuf_eq_read (c : Codec) (fuel : Nat) (r : Reader) (len cap : Nat) :
+    readBuf c fuel r len cap = read c fuel r len := by
+  unfold readBuf; rw [directBound_len, readB_eq_read]
+
+/-- the C16-m7 shape: deciding by the capacity, a 3-byte block is "handed out" into a buffer of length 1 -/
+theorem cap_bound_counterexample :
+    ∃ r' d, readB ⟨id, some, fun b => some b.length⟩ 3 (newReader (Spec.Xerial.frame [[7, 8, 9]])) 1 4 = (r', .data d) ∧
+      d.length = 3 := by
+  refine ⟨_, _, rfl, rfl⟩
+
+/-- the block encoder installed for every value of the `Compression` option (go/ast on `Codec.NewWriter`, every run) is one
+of the functions that emit the SNAPPY block format — `snappy.Encode`, `s2.EncodeSnappy`, `s2.EncodeSnappyBetter`,
+`s2.EncodeSnappyBest` (klauspost/compress documents these as compatible with the reference decoder; `s2.Encode`,
+`s2.EncodeBetter`, `s2.EncodeBest` emit the S2 extension, which golang/snappy and snappy-java reject: seeded C16-m8).  The
+block codec of the model (`Good c`) stands for exactly such an encoder; interoperability of its output is sampled per
+option by the ops `out` / `cfg` with the reference decoder. -/
+theorem gen_snappy_encoders :
+    (∀ e ∈ Gen.XerialFacts.snappyEncoders,
+      e.2 ∈ ["snappy.Encode", "s2.EncodeSnappy", "s2.EncodeSnappyBetter", "s2.EncodeSnappyBest"]) ∧
+    Gen.XerialFacts.snappyEncoders.map (·.1) = ["FasterCompression", "BetterCompression", "BestCompression", "default"] ∧
+    Gen.XerialFacts.copyBound = ["param"] := by decide
 
 /-- FULL round trip, framed: every non-empty payload, every split into Write calls, every sequence of Read
 buffer sizes: what the reader returns is the payload -/
